@@ -6,6 +6,7 @@ from ..contracts import flux as CF, process as CP, membrane as CM
 from ..loops import segments, Head
 
 ID = "C20"
+FRAME_SENSITIVE = True        # the statement relates several calls / call histories: a certain write to state that outlives a call is a violation even where the engine cannot follow its effect
 MIN_OBLIGATIONS = 60
 LEVEL = 'proof'
 
@@ -120,6 +121,8 @@ def obligations(cx):
             for f in procs.FUNCS for mode in ('vacuum', 'temperature', 'pressure') for prog in ((False,) if 'non_isothermal' not in f else (False, True))
             for curves, initial in ((('one', False),) if f.startswith('ideal') else (('one', False), ('many', True)))]
     if cx.tier == 'quick': cfgs = [c for c in cfgs if not (c.mode == 'pressure' and c.program)]
+    # curve sets given in mole fractions (the models' conversion branch)
+    cfgs += [procs.Config(f, 'vacuum', False, 'weight', curves, False, curve_type='molar') for f in procs.FUNCS if not f.startswith('ideal') for curves in ('one', 'many')]
     for cfg in cfgs:
         pvp, kw, ps = procs.run(cx, cfg)
         frame(cx, "process." + cfg.tag(), ps, 'Pervaporation.' + cfg.func)
